@@ -30,8 +30,34 @@ func verifSetMapIterHook(f func(count int, B uint8, pc uintptr) (uintptr, bool))
 """
 open(dst, "w").write(s)
 PY
+# The wall clock becomes an environment answer the checker decides: time.Now / Since / Until add
+# an offset (seconds) that the checker sets around library calls (C06 wall-clock scenario, C19
+# clock jumps). The offset is 0 whenever the harness itself reads the clock.
+TSRC="$GOROOT_DIR/src/time/time.go"
+TDST="$PWD/build/time_time.go"
+python3 - "$TSRC" "$TDST" <<'PY'
+import sys
+src, dst = sys.argv[1], sys.argv[2]
+s = open(src).read()
+a1 = "\tsec, nsec, mono := now()\n\tmono -= startNano\n"
+assert s.count(a1) == 1, "time.Now anchor"
+s = s.replace(a1, a1 + "\tif off := verifClockOffset; off != 0 {\n\t\tsec += off\n\t\tmono += off * 1e9\n\t}\n")
+a2 = "runtimeNano()-startNano"
+assert s.count(a2) == 2, "time.Since/Until anchors"
+s = s.replace(a2, "runtimeNano()-startNano+verifClockOffset*1e9")
+s += """
+// verif: offset in seconds added to the wall and monotonic clocks as seen through Now, Since and Until.
+var verifClockOffset int64
+
+//go:linkname verifSetClockOffset
+func verifSetClockOffset(sec int64) {
+	verifClockOffset = sec
+}
+"""
+open(dst, "w").write(s)
+PY
 cat > build/overlay.json <<JSON
-{"Replace": {"$SRC": "$DST"}}
+{"Replace": {"$SRC": "$DST", "$TSRC": "$TDST"}}
 JSON
 # For the race-detector build (C18) sync.Pool is replaced by an implementation that never
 # keeps anything: Get returns New(), Put drops. That is an admissible Pool (it may drop any
@@ -61,7 +87,7 @@ func (p *Pool) Get() any {
 }
 GO
 cat > build/overlay_race.json <<JSON
-{"Replace": {"$SRC": "$DST", "$GOROOT_DIR/src/sync/pool.go": "$PWD/build/sync_pool.go"}}
+{"Replace": {"$SRC": "$DST", "$TSRC": "$TDST", "$GOROOT_DIR/src/sync/pool.go": "$PWD/build/sync_pool.go"}}
 JSON
 cp /repo/go.sum mc/go.sum
 (cd mc && go build -tags verif -overlay ../build/overlay.json -o ../build/mc . )
